@@ -39,13 +39,17 @@ def body(chk, db, cfgname):
     at = thr.facts(f)
     SBI, SCn = fld(SC + "StateBlockIndex"), fld(SC + "StatesContainer")
     pushes = {}
+    rawvar = {}
     for j, n in f.walk(f.body):
         if n["k"] == "call" and n["ck"] == "method" and strip_targs(n.get("cname") or "") == "std::vector::push_back":
             ok_ = ctx.key(n["obj"])
             if ok_ == SBI:
                 pushes[j] = ("sbi", deconv(ctx.key(n["args"][0])))
+                rawvar[j] = deconv(ctx.key(n["args"][0], inline=False))
             elif ok_[0] == "op" and ok_[1] == "[]" and ok_[2] == SCn:
                 pushes[j] = ("sc", deconv(ok_[3]), ctx.key(n["args"][0], inline=False))
+                okr_ = ctx.key(n["obj"], inline=False)
+                rawvar[j] = deconv(okr_[3]) if okr_[0] == "op" and okr_[1] == "[]" and len(okr_) == 4 else None
             elif ok_ == SCn:
                 pushes[j] = ("newblock",)
     loops = [j for j, n in f.walk(f.body) if n["k"] == "for"]
@@ -107,7 +111,34 @@ def body(chk, db, cfgname):
         path, seq = lst[0]
         site = SC + "compute:path[%s]" % ",".join(sig)
         penv, pdef = path_env(path)
-        res = lambda k: key_subst(k, lambda x: penv.get(x[1]) if x[0] == "var" else None)
+        from pv import paths as _P
+        pfacts = _P.path_facts(f, ctx, [hdr] + list(path)) | _P.path_facts(f, ctx, list(path))
+
+        def _resolve_cond(k):
+            # c ? a : b  under the branch facts of THIS path (a block number chosen by `new ? counter : found->second`)
+            def g_(x):
+                if x[0] == "cond" and len(x) == 4:
+                    cnd_ = key_subst(x[1], lambda y: ctx.key(ctx.decls[y[1]]["init"]) if y[0] == "var" and y[1] in ctx.decls and ctx.decls[y[1]].get("init") is not None and ctx.single_assignment(y[1]) else None)
+                    ft, ff = _P.key_facts(cnd_, True), _P.key_facts(cnd_, False)
+                    if ft and all(y in pfacts for y in ft):
+                        return x[2]
+                    if ff and all(y in pfacts for y in ff):
+                        return x[3]
+                return None
+            return key_subst(k, g_)
+        def _val(x, depth=0):
+            # value of a local on this path: assigned on the path, or a single-assignment local that the flow-insensitive inliner
+            # left alone because its initialiser mentions a variable that changes later (block number captured before the counter
+            # is advanced) -- its initialiser, read at the declaration
+            if x[0] != "var" or x[1] == shp["var"][1] or depth > 4:
+                return None
+            if x[1] in penv:
+                return penv[x[1]]
+            dv_ = ctx.decls.get(x[1], {})
+            if dv_.get("init") is not None and ctx.single_assignment(x[1]) and dv_.get("t", "").replace("const ", "").strip() in ("Pomerol::BlockNumber", "BlockNumber", "int", "unsigned int", "size_t", "unsigned long", "bool"):
+                return key_subst(deconv(ctx.key(dv_["init"], inline=False)), lambda y: _val(y, depth + 1))
+            return None
+        res = lambda k: deconv(_resolve_cond(key_subst(k, _val)))
         used_def = [pdef[pushes[j][1][1]] for j in seq if len(pushes[j]) > 1 and isinstance(pushes[j][1], tuple) and pushes[j][1][0] == "var" and pushes[j][1][1] in pdef]
         sbi = [(pushes[j][0], res(pushes[j][1])) + tuple(pushes[j][2:]) for j in seq if pushes[j][0] == "sbi"]
         sc = [(pushes[j][0], res(pushes[j][1])) + tuple(pushes[j][2:]) for j in seq if pushes[j][0] == "sc"]
@@ -138,14 +169,27 @@ def body(chk, db, cfgname):
                 for b_ in path:
                     for e in f.cfg.blocks[b_].elems:
                         order_ids.append(e[2] if isinstance(e, tuple) else e)
-                when = lambda nid: order_ids.index(nid) if nid in order_ids else None
+                def when(nid):
+                    if nid in order_ids:
+                        return order_ids.index(nid)
+                    # a statement that is not itself a CFG element (a declaration group ...): position of its first element
+                    for x_, _n in f.walk(nid):
+                        if x_ in order_ids:
+                            return order_ids.index(x_)
+                    return None
                 inc_ok = len(incs) == 1 and when(incs[0]) is not None
                 if inc_ok:
                     for j in seq:
                         if len(pushes[j]) < 2:
                             continue
                         raw = pushes[j][1]
-                        if raw == b:
+                        rv_ = rawvar.get(j)
+                        if raw != b and res(raw) == b and isinstance(rv_, tuple) and rv_[0] == "var" and ctx.single_assignment(rv_[1]) and ctx.decls.get(rv_[1], {}).get("declnode") is not None:
+                            # the number was captured in a single-assignment local (possibly as `new ? counter : found`): the capture
+                            # must precede the increment
+                            dn_ = ctx.decls[rv_[1]]["declnode"]
+                            inc_ok = inc_ok and when(dn_) is not None and when(dn_) < when(incs[0])
+                        elif raw == b:
                             # the counter itself is read at the push: it must not have advanced yet
                             inc_ok = inc_ok and when(j) is not None and when(j) < when(incs[0])
                         elif isinstance(raw, tuple) and raw[0] == "var" and raw[1] in pdef:
@@ -175,7 +219,7 @@ def body(chk, db, cfgname):
                     detail = "the new block is not registered in both QuantumToBlock and BlockToQuantum"
         else:
             # existing block: number read from the find() result on the found edge
-            fa = at.get(f.cfg.pos1(used_def[0] if used_def else seq[0]), frozenset())
+            fa = set(at.get(f.cfg.pos1(used_def[0] if used_def else seq[0]), frozenset())) | set(pfacts)
             fk = [x for x in fa if x[0] == "!=" and key_contains(x, lambda y: y[0] == "mcall" and y[1] == "std::map::find" and y[2] == fld(SC + "QuantumToBlock"))]
             if not fk:
                 good = False
@@ -544,6 +588,8 @@ def body(chk, db, cfgname):
 
 
 def check_acceptance(r3, g, gctx, gat, P, tag, cfgname):
+    global _DB
+    _DB = gctx.db
     opk = gctx.key(g.nodes[P]["args"][0], inline=False)
     fa = gat.get(g.cfg.pos1(P), frozenset())
     has_commute_test = any(x[0] == "true" and x[1][0] == "mcall" and x[1][1] == "Pomerol::Operator::commutes" for x in fa)
@@ -568,18 +614,21 @@ def check_acceptance(r3, g, gctx, gat, P, tag, cfgname):
     # (b) commutes with every n_i: a full loop over [0, IndexSize) whose failing edge returns false, before the push
     site = "Pomerol::Symmetrizer::checkSymmetry:commutes-with-all-n_i" + tag
     okb = False
+    found_loop = False
     why = "no loop over the single-particle indices testing n(i).commutes(op)"
     for Lp in [j for j, n in g.walk(g.body) if n["k"] == "for"]:
         shp = loop_shape(g, gctx, Lp)
-        if shp["kind"] != "index":
-            continue
         tests = []
-        for j, n in g.walk(shp["body"]):
+        for j, n in g.walk(shp["body"]) if shp.get("body") is not None else []:
             if n["k"] == "call" and strip_targs(n.get("cname") or "") == "Pomerol::Operator::commutes":
                 ok_ = gctx.key(n["obj"]) if n.get("obj") is not None else None
-                if ok_ and ok_[0] == "call" and ok_[1] == "Pomerol::OperatorPresets::n" and ok_[2][:2] == shp["var"][:2]:
+                if ok_ and ok_[0] == "call" and ok_[1] == "Pomerol::OperatorPresets::n" and (shp.get("var") is None or ok_[2][:2] == shp["var"][:2]):
                     tests.append(j)
         if not tests:
+            continue
+        found_loop = True
+        if shp["kind"] != "index":
+            why = "the loop testing n(i).commutes(op) does not cover [0, IndexSize) (loop header not of the form i = 0; i < IndexSize; ++i)"
             continue
         hdr, blks = g.cfg.loop_blocks(Lp)
         full = shp["start"] == ("lit", 0) and shp["rel"] == "<" and shp["bound"] in (fld("Pomerol::Symmetrizer::IndexSize"),
@@ -595,6 +644,9 @@ def check_acceptance(r3, g, gctx, gat, P, tag, cfgname):
             why = "the loop testing n(i).commutes(op) %s" % ("does not cover [0, IndexSize)" if not full else "does not reject (return false) on a failing test before the operator is stored" if not (passed and rets_false and shp["exits"]) else "does not precede the acceptance")
     if okb:
         r3.ok(site, g.loc(P), "acceptance follows a loop over all i < IndexSize in which a failing n(i).commutes(op) returns false", cfgname)
+    elif not found_loop and _delegates_n_test(g):
+        # the occupation-number test sits in a helper (or a while / algorithm form): not followed, no verdict
+        r3.unknown(site, g.loc(P), "the test against the occupation numbers n(i) is not written as a for-loop in checkSymmetry (helper function or another loop form): not analysed", cfgname)
     else:
         r3.bad(site, g.loc(P), why, cfgname)
     # (c) NSymmetries incremented with it
@@ -606,6 +658,30 @@ def check_acceptance(r3, g, gctx, gat, P, tag, cfgname):
     else:
         r3.bad(site, g.loc(P), "the number of quantum numbers (NSymmetries) is not incremented together with Operations.push_back", cfgname)
 
+
+
+def _delegates_n_test(g, depth=3):
+    """does g -- outside a recognised for-loop -- still reach OperatorPresets::n (directly in a while / algorithm form, or through a
+    helper function of the analysed sources)?"""
+    db = g.db if hasattr(g, "db") else None
+    seen = set()
+
+    def reach(f, d):
+        if f.mangled in seen or f.body is None or f.body < 0 or d < 0:
+            return False
+        seen.add(f.mangled)
+        for j, n in f.walk(f.body):
+            if n["k"] == "call" and strip_targs(n.get("cname") or "") == "Pomerol::OperatorPresets::n":
+                return True
+            if n["k"] == "call" and _DB is not None:
+                cf = _DB.callee_fn(n)
+                if cf is not None and cf.mangled != f.mangled and "/usr/" not in (cf.file or "/usr/") and reach(cf, d - 1):
+                    return True
+        return False
+    return reach(g, depth)
+
+
+_DB = None
 
 
 def first_elem(f, node):
